@@ -148,6 +148,34 @@ pub fn c10(a: &Args) {
         out.count("after_unit_clause_edit", 1);
         one(&mut out, "after unit clause", &format!("{}\n+ unit clause {}", file.text(), l), &mut d, Some(&tt2), &tmp, r4.next(), false);
     }
+    // models reached by CNF-backed edits: a recompiling incremental edit (C11) or a stream clause-update / undo-update (C12)
+    crate::refcomp::install();
+    let mut r5 = Rng::new(a.seed ^ 0x12);
+    for i in 0..(if a.thorough() { 200 } else { 40 }) {
+        use crate::refcomp::{cnf_text, cnf_tt, Clause};
+        let n = 3 + r5.below(5) as u32;
+        let rc = |r: &mut Rng| -> Clause { let w = 1 + r.below(3.min(n as usize)); let mut c = Clause::new(); while c.len() < w { let v = 1 + r.below(n as usize) as i32; if c.contains(&v) || c.contains(&-v) { continue; } c.insert(if r.chance(0.5) { v } else { -v }); } c };
+        let cls: Vec<Clause> = (0..(2 + r5.below(n as usize))).map(|_| rc(&mut r5)).collect();
+        let extra = rc(&mut r5);
+        let mut all = cls.clone(); all.push(extra.clone());
+        let (tt0, tt1) = (cnf_tt(n, &cls), cnf_tt(n, &all));
+        if tt1.count() == 0 || extra.len() < 2 { continue; }
+        let p = format!("{tmp}/edited_start.cnf");
+        std::fs::write(&p, cnf_text(n, &cls)).unwrap();
+        let Ok(mut d) = guarded(|| Ddnnf::from_file(std::path::Path::new(&p), None)) else { continue };
+        let lits: Vec<i32> = extra.iter().copied().collect();
+        let text = format!("{}+ {:?}", cnf_text(n, &cls), lits);
+        let (label, want) = match i % 3 {
+            0 => { if guarded(|| { d.prepare_and_apply_incremental_edit(vec![(lits.clone(), ddnnife::parser::intermediate_representation::ClauseApplication::Add)]); }).is_err() { continue; } ("after an incremental edit", tt1.clone()) }
+            1 => { let msg = format!("clause-update add {} 0", lits.iter().map(|l| l.to_string()).collect::<Vec<_>>().join(" ")); if guarded(|| d.handle_stream_msg(&msg)).map(|r| !r.is_empty()).unwrap_or(true) { continue; } ("after clause-update", tt1.clone()) }
+            _ => { let msg = format!("clause-update add {} 0", lits.iter().map(|l| l.to_string()).collect::<Vec<_>>().join(" ")); if guarded(|| d.handle_stream_msg(&msg)).map(|r| !r.is_empty()).unwrap_or(true) { continue; }
+                   if guarded(|| d.handle_stream_msg("undo-update")).map(|r| !r.is_empty()).unwrap_or(true) { continue; } ("after clause-update + undo-update", tt0.clone()) }
+        };
+        if want.count() == 0 || d.number_of_variables != n { continue; }
+        out.eval(Some(format!("{text}|{label}")));
+        out.count("after_cnf_backed_edit", 1);
+        one(&mut out, label, &format!("{text} ({label})"), &mut d, Some(&want), &tmp, r5.next(), i % 2 == 0);
+    }
     // corpus
     for (path, tf) in corpus(a.thorough()) {
         let p = path.clone();
@@ -157,5 +185,5 @@ pub fn c10(a: &Args) {
         out.count("corpus_models", 1);
         one(&mut out, &path, &path, &mut d, None, &tmp, 7, false);
     }
-    out.finish("every model of the C01 space (counted: d4 inputs that had to be smoothed, n-ary or-nodes, all-free models), c2d inputs with true nodes, models reached by a unit-clause edit, corpus: save with the real writer (library and stream), file compared with the model writer, truth table of the file text vs the original, reload with the real loader compared node by node with the model's parse+flatten, reloaded array checked well-formed by the driver, and a battery (counts, sat, core with assumptions, enumeration set, atomic sets plain and cross) answered identically");
+    out.finish("every model of the C01 space (counted: d4 inputs that had to be smoothed, n-ary or-nodes, all-free models), c2d inputs with true nodes, models reached by a unit-clause edit, by a recompiling incremental edit, by clause-update and by clause-update + undo-update (reference compiler behind the hook), corpus: save with the real writer (library and stream), file compared with the model writer, truth table of the file text vs the original, reload with the real loader compared node by node with the model's parse+flatten, reloaded array checked well-formed by the driver, and a battery (counts, sat, core with assumptions, enumeration set, atomic sets plain and cross) answered identically");
 }
